@@ -104,6 +104,7 @@ fn main() {
             let mut rng = Rng::new(seed ^ 0xC13_0F);
             c06::generate_views(&mut out, &mut rng, false);
             opviews::generate(&mut out, &mut rng, false);
+            c06::generate_entry_pairs(&mut out, &mut rng);
         }
         "C18" => {
             rprops::gen_c18(&mut out, seed, thorough);
